@@ -21,9 +21,9 @@ VARIABLES faults, stage, outcome
 vars == <<faults, stage, outcome>>
 Lib == {"Document", "FileError", "FileFormatError", "UnsupportedError"}
 ContainerFaults == {"missing", "wrong-suffix", "truncated-0", "truncated-local-header", "truncated-in-member", "truncated-central-dir",
-                    "truncated-end-record", "bad-plist", "missing-plist", "encrypted", "no-objects"}
+                    "truncated-end-record", "bad-plist", "plist-xml-garbage", "plist-no-version", "plist-version-type", "missing-plist", "encrypted", "no-objects"}
 MemberFaults == {"crc", "empty", "short", "cut-at-chunk", "cut-off-chunk", "trailing", "marker", "len-long", "len-short", "bad-snappy", "bad-varint",
-                 "bad-archive-info", "unknown-type"}
+                 "bad-archive-info", "unknown-type", "no-messages"}
 AllFaults == [kind : ContainerFaults, at : {0}] \cup [kind : MemberFaults, at : Members]
 Stages == <<"exists", "suffix", "container", "plist", "encrypted">> \o [i \in 1..Cardinality(Members) |-> <<"member", i>>] \o <<"init">>
 \* what a fault does when its stage is reached: an outcome class, or "pass" (the stage completes; for a member: stored as an opaque blob / objects lost)
@@ -32,6 +32,7 @@ Effect(f) ==
     [] f.kind = "wrong-suffix" -> "FileFormatError"
     [] f.kind \in {"truncated-0", "truncated-central-dir", "truncated-end-record", "truncated-local-header", "truncated-in-member"} -> "FileFormatError"
     [] f.kind = "bad-plist" -> "pass"                                    \* malformed Properties.plist: a warning, not an error
+    [] f.kind \in {"plist-xml-garbage", "plist-no-version", "plist-version-type"} -> (IF Mode = "pinned" THEN "Other" ELSE "pass")   \* so are the other ways of not stating a version
     [] f.kind = "missing-plist" -> "FileFormatError"
     [] f.kind = "encrypted" -> "UnsupportedError"
     [] f.kind = "no-objects" -> (IF Mode = "pinned" THEN "Other" ELSE "FileFormatError")
@@ -41,9 +42,10 @@ Effect(f) ==
     [] f.kind \in {"marker", "len-long", "len-short", "cut-at-chunk", "cut-off-chunk", "trailing"} -> "pass"   \* the sniffer says "not an archive" (marker, or the
                                                                             \* chunk lengths no longer add up to the file length): stored as a blob
     [] f.kind \in {"bad-snappy", "bad-varint", "bad-archive-info", "unknown-type"} -> "FileFormatError"
+    [] f.kind = "no-messages" -> (IF Mode = "pinned" THEN "Other" ELSE "FileFormatError")      \* a well-formed segment header that lists no message
 StageOf(f) == CASE f.kind \in {"missing"} -> 1 [] f.kind = "wrong-suffix" -> 2
                 [] f.kind \in {"truncated-0", "truncated-central-dir", "truncated-end-record", "truncated-local-header"} -> 3
-                [] f.kind \in {"bad-plist", "missing-plist"} -> 4 [] f.kind = "encrypted" -> 5
+                [] f.kind \in {"bad-plist", "plist-xml-garbage", "plist-no-version", "plist-version-type", "missing-plist"} -> 4 [] f.kind = "encrypted" -> 5
                 [] f.kind = "truncated-in-member" -> 3
                 [] f.kind = "no-objects" -> Len(Stages)
                 [] OTHER -> 5 + f.at
